@@ -55,9 +55,9 @@ def run_case(ctx, res, spec, nconf):
     test_set = ({k: np.asarray(v) for k, v in xt_model.items()},
                 {k: np.asarray(v) for k, v in yt.items() if k in base_sys.outputs()})
 
-    # a LARGE monitoring test set (1500 samples), and a test set given as inputs only ((xtest, None): no monitoring)
+    # a LARGE monitoring test set (6000 samples), and a test set given as inputs only ((xtest, None): no monitoring)
     np.random.seed(13)
-    xb = base_sys.sample_inputs(1500)
+    xb = base_sys.sample_inputs(6000)
     yb = base_sys.predict(xb, use_model='best')
     test_big = ({k: np.asarray(v) for k, v in to_model_dataset(xb, base_sys.inputs())[0].items()},
                 {k: np.asarray(v) for k, v in yb.items() if k in base_sys.outputs()})
